@@ -5,6 +5,7 @@ from props import common, mix
 THM = "NextestModel.Thm.C03"
 THM_EXTRA = ["NextestModel.Thm.C03Unit"]
 GEN = []
+CHECK_MODULES = ["NextestModel.Lemmas.Unit", "NextestModel.Model.Unit", "NextestModel.Model.Classify"]
 TRUSTED = ["model: Model/Classify (create_execution_result, AbortStatus::extract on Unix, describe)",
            "std's decoding of raw wait statuses (ExitStatusExt) is compared exhaustively with the model's"]
 ASSUMPTIONS = ["PARTIAL: that `status = Timeout` is set exactly on the terminate-for-timeout path, that spawn errors become ExecFail, and the leak detection timing are executor behaviour exercised end-to-end only (pending)"]
